@@ -16,6 +16,8 @@ RULE = ("Generated expression trees (recursive Hypothesis strategy, depth <= 6) 
         "statistics_from_samples of the composite == var/mean of the interpreter's per-sample values. Rejection cases: observable "
         "* observable -> ValueError, str/None/list/tensor operands -> TypeError, at build time. Non-trivial = depth >= 3 with a "
         "reflected operator (scalar - obs or scalar * obs) and a subtraction.")
+RULE_EXT = ('Extended as built: every expression is evaluated in two passes (operand re-evaluation), leaves shared by several parents, same-named leaves, coefficients 1e-9..1e9, integer (long) sample batches with tolerance 1e-5 (float32 promotion).')
+RULE = RULE + " " + RULE_EXT
 ASSUMPTIONS = ["rtol 1e-12 (+1e-12 absolute); float scalars are 0 or >= 1e-3 in magnitude (no denormal-range products)", "numpy integer scalars are not Python ints and are not generated (the library documents int/float)"]
 
 LEAVES = ["SigmaX", "SigmaY", "SigmaZ", "SigmaZabs", "SigmaXabs", "NI1", "NI2p", "SWAP0", "SWAP01"]   # several leaves share a name but differ in behaviour
